@@ -89,6 +89,8 @@ def pr(e, alt):
         return [['w', e[1], e[2]]]
     if k == 'F':                                   # conversion function call: one unit of the expression
         return [['f', e[1], pr(e[2], alt)]]
+    if k == 'G':                                   # string function call CHR$ STR$ LEFT$ RIGHT$ MID$ (a temporary)
+        return [['g', e[1], pr(e[2], alt), e[3], e[4]]]
     if k == 'P':
         return paren(True, pr(e[1], alt))
     if k == 'U':
@@ -102,6 +104,8 @@ def par_all(e):
     k = e[0]
     if k == 'F':
         return ['F', e[1], par_all(e[2])]
+    if k == 'G':
+        return ['G', e[1], par_all(e[2]), e[3], e[4]]
     if k == 'P':
         return ['P', par_all(e[1])]
     if k == 'U':
@@ -122,7 +126,7 @@ def depth(e):
 
 def count_ops(e):
     k = e[0]
-    if k == 'F':
+    if k in ('F', 'G'):
         return 1 + count_ops(e[2])
     if k == 'P':
         return count_ops(e[1])
@@ -149,6 +153,8 @@ def coq_expr(e):
         return '(vS %s)' % core.zl(list(e[2].encode('latin-1')))
     if k == 'F':
         return '(vF %d %s)' % (e[1], coq_expr(e[2]))
+    if k == 'G':
+        return '(vG %d %d %d %s)' % (e[1], e[3], e[4], coq_expr(e[2]))
     if k == 'P':
         return '(Par %s)' % coq_expr(e[1])
     if k == 'U':
@@ -316,6 +322,33 @@ def val_fn(f, a):
     return a                                           # INT, FIX of an integer-valued number
 
 
+SFN_NAME = {8: b'CHR$', 9: b'STR$', 10: b'LEFT$', 11: b'RIGHT$', 12: b'MID$'}
+
+
+def val_sfn(f, i, j, a):
+    """String functions (their results are temporary strings)."""
+    t, x = a
+    if f in (8, 9):
+        if t == STR:
+            raise BErr(13)
+        if f == 8:
+            if not 0 <= x <= 255:
+                raise OutOfDomain()
+            return (STR, bytes([x]))
+        if abs(x) > 999999:
+            raise OutOfDomain()
+        return (STR, (b'-' if x < 0 else b' ') + b'%d' % abs(x))
+    if t != STR:
+        raise BErr(13)
+    if f == 10:
+        return (STR, x[:i])
+    if f == 11:
+        return (STR, x[len(x) - i:] if i < len(x) else x)
+    if i < 1:
+        raise OutOfDomain()
+    return (STR, x[i - 1:i - 1 + j])
+
+
 def variables_of(e, acc=None):
     """name -> (type, value) of the variables of a tree."""
     acc = {} if acc is None else acc
@@ -326,6 +359,8 @@ def variables_of(e, acc=None):
         acc[e[1]] = (STR, e[2].encode('latin-1'))
     elif k in ('P', 'U', 'F'):
         variables_of(e[-1], acc)
+    elif k == 'G':
+        variables_of(e[2], acc)
     elif k == 'B':
         variables_of(e[2], acc)
         variables_of(e[3], acc)
@@ -348,6 +383,8 @@ def ref_eval(e, un, bi):
         return (STR, e[2].encode('latin-1'))
     if k == 'F':
         return val_fn(e[1], ref_eval(e[2], un, bi))
+    if k == 'G':
+        return val_sfn(e[1], e[3], e[4], ref_eval(e[2], un, bi))
     if k == 'P':
         return ref_eval(e[1], un, bi)
     if k == 'U':
@@ -410,6 +447,9 @@ def render_text(toks, blanks):
             out += t[1].encode('latin-1')
         elif k == 'f':
             out += FN_NAME[t[1]] + b'(' + render_text(t[2], 0) + b')'
+        elif k == 'g':
+            args = [render_text(t[2], 0)] + [b'%d' % x for x in ([], [], [t[3]], [t[3]], [t[3], t[4]])[t[1] - 8]]
+            out += SFN_NAME[t[1]] + b'(' + b','.join(args) + b')'
         elif k == 'o':
             out += OP_TEXT[t[1]]
         elif k in ('(', ')'):
@@ -570,6 +610,16 @@ class C18(core.Check):
             var(B(2, ['F', 2, V('F!', 1, 5)], N(2))), var(B(6, ['F', 1, V('A%', 0, 5)], V('A%', 0, 5))),
             var(['F', 6, V('D#(2)', 2, -7)]), var(['F', 7, V('E!(1)', 1, -7)]), var(['F', 5, V('Q#', 2, -7)]),
             var(['F', 4, ['W', 'S$', 'ab']]), var(['F', 5, ['W', 'S$', 'ab']]), var(['F', 1, V('F!', 1, 40000)]),
+            # a temporary string operand waits on the stack while a parenthesised sub-expression is evaluated (C18e)
+            var(B(6, ['P', B(6, ['W', 'S$', 'x'], ['W', 'T$', 'y'])], ['P', B(6, ['W', 'T$', 'y'], ['W', 'S$', 'x'])])),
+            var(B(6, ['G', 8, N(65), 0, 0], ['P', ['G', 8, N(66), 0, 0]])),
+            var(B(6, ['S', 'AB'], ['P', ['S', 'C']])),
+            var(B(10, ['P', B(6, ['W', 'S$', 'x'], ['S', '1'])], ['P', B(6, ['W', 'S$', 'x'], ['S', '2'])])),
+            var(B(6, ['W', 'S$', 'x'], ['P', B(6, ['W', 'T$', 'y'], ['W', 'S$', 'x'])])),
+            var(B(6, ['G', 9, N(5), 0, 0], ['P', ['G', 12, ['S', 'abcd'], 2, 2]])),
+            var(B(9, B(6, ['G', 10, ['S', 'abc'], 2, 0], ['P', ['G', 11, ['S', 'abc'], 1, 0]]), ['P', ['S', 'abc']])),
+            var(B(6, B(6, ['S', 'a'], ['S', 'b']), ['P', ['P', ['S', 'c']]])),
+            var(['G', 9, U(1, V('P#', 2, 5)), 0, 0]), var(['G', 8, ['S', 'a'], 0, 0]), var(['G', 10, N(5), 1, 0]),
             val(B(18, N(1), ['S', 'a'])),                             # D18a: 1 IMP "a" must be Type mismatch
             val(B(18, N(1, 2), ['S', ''])), val(B(18, ['S', 'a'], N(1))),
             val(B(10, ['S', 'ab'], ['S', 'b'])), val(B(8, ['S', 'a'], ['S', 'ab'])),
@@ -739,6 +789,53 @@ class C18(core.Check):
                     return e
         return ['B', 6, ['B', 2, ['V', 'P#', 2, 3], ['N', 0, 2]], ['V', 'P#', 2, 3]]
 
+    def gen_str_tree(self, env, depth_left):
+        """String-valued tree: literals, string variables, temporaries (results of +, CHR$, STR$, LEFT$, RIGHT$,
+        MID$) and explicit parentheses anywhere - a temporary operand waits on the stack while a later
+        parenthesised sub-expression is evaluated."""
+        rng = self.rng
+        svars = [v for v in env if v[0] == 'W']
+        nvars = [v for v in env if v[0] == 'V' and abs(v[3]) <= 999999]
+        r = rng.random()
+        if depth_left == 0 or r < 0.25:
+            x = rng.random()
+            if x < 0.3:
+                return ['S', rng.choice(['', 'a', 'b', 'ab', 'ba', 'A', 'abc', 'x1', 'x2'])]
+            if x < 0.6 and svars:
+                return rng.choice(svars)
+            if x < 0.8:
+                return ['G', 8, ['N', rng.choice([0, 0, 1]), rng.randrange(65, 91)], 0, 0]
+            arg = rng.choice(nvars) if nvars and rng.random() < 0.5 else ['N', rng.choice([0, 1, 2]), rng.randrange(0, 1000)]
+            return ['G', 9, ['U', 1, arg] if rng.random() < 0.2 else arg, 0, 0]
+        if r < 0.5:
+            return ['P', self.gen_str_tree(env, depth_left - 1)]
+        if r < 0.65:
+            f = rng.choice([10, 11, 12])
+            return ['G', f, self.gen_str_tree(env, depth_left - 1), rng.randrange(0 if f != 12 else 1, 5), rng.randrange(0, 4)]
+        return ['B', 6, self.gen_str_tree(env, depth_left - 1), self.gen_str_tree(env, depth_left - 1)]
+
+    def gen_str_case_tree(self):
+        rng = self.rng
+        env = [v for v in self.gen_env()] + [['W', rng.choice(['S$', 'T$', 'U$(2)']), rng.choice(['x', 'y', 'ab', ''])]]
+        names = set()
+        env = [v for v in env if not (v[1] in names or names.add(v[1]))]
+        for attempt in range(20):
+            a = self.gen_str_tree(env, rng.choice([1, 2, 2, 3, 3, 4]))
+            r = rng.random()
+            if r < 0.5:
+                e = a
+            else:
+                b = self.gen_str_tree(env, rng.choice([1, 2, 3]))
+                e = ['B', rng.randrange(8, 14), a, b]
+                if r > 0.9:
+                    e = ['B', rng.choice([6, 7, 14, 9]), e, rng.choice([['N', 0, 1], ['P', e]])]
+            try:
+                ref_eval(e, val_un, val_bin)
+                return e
+            except (OutOfDomain, BErr):
+                continue
+        return ['B', 6, ['B', 6, ['W', 'S$', 'x'], ['W', 'T$', 'y']], ['P', ['B', 6, ['W', 'T$', 'y'], ['W', 'S$', 'x']]]]
+
     def gen_val_tree(self, depth_left, pextra):
         """Typed tree whose reference evaluation stays in the exact domain (or raises a BASIC error)."""
         rng = self.rng
@@ -791,7 +888,12 @@ class C18(core.Check):
             sel = i % 20
             alt = [rng.randrange(2) for _ in range(3)]
             bl = rng.choice([0, 0, rng.getrandbits(30)])
-            if sel in (9, 10):
+            if sel in (8, 15):
+                e = self.gen_str_case_tree()
+                out.append({'k': 'var', 'e': e, 'alt': alt, 'bl': bl})
+                hist['var_strings'] = hist.get('var_strings', 0) + 1
+                note(e)
+            elif sel in (9, 10):
                 e = self.gen_var_case_tree()
                 out.append({'k': 'var', 'e': e, 'alt': alt, 'bl': bl})
                 hist['var'] = hist.get('var', 0) + 1
@@ -1052,6 +1154,10 @@ class C18(core.Check):
                 yield e[-1]
                 for x in subtrees(e[-1]):
                     yield x
+            elif e[0] == 'G':
+                yield e[2]
+                for x in subtrees(e[2]):
+                    yield x
             elif e[0] == 'B':
                 for c in (e[2], e[3]):
                     yield c
@@ -1065,6 +1171,9 @@ class C18(core.Check):
                     yield e[:-1] + [leaf]
                 for x in replaced(e[-1]):
                     yield e[:-1] + [x]
+            elif e[0] == 'G':
+                for x in replaced(e[2]):
+                    yield e[:2] + [x] + e[3:]
             elif e[0] == 'B':
                 for i in (2, 3):
                     if e[i][0] in ('P', 'U', 'B', 'F'):
